@@ -438,3 +438,16 @@ package st
 //@ func recvOneBad(c chan int) (r int)
 //@   requires c != nil
 //@   ensures [one] r == 1
+
+//@ monitor rw mu: n
+//@ invariant (r *rw) small: r.n >= 0
+//@ func (r *rw) goodRead() (x int)
+//@   ensures [x] x >= 0
+//@ func (r *rw) badWrite()
+//@   ensures true
+//@ func (m *mon) leak()
+//@   ensures true
+//@ func (m *mon) doubleUnlock()
+//@   ensures true
+//@ func (m *mon) staleBad() (r bool)
+//@   ensures [same] r
